@@ -4,7 +4,7 @@
 set -u
 PATCH="$1"; shift
 WT=/tmp/wt-confirm
-rsync -a --exclude target /verif/sim/ /tmp/sim-eval/sim/ && sed -i 's#/repo/#/tmp/wt-confirm/#g' /tmp/sim-eval/sim/Cargo.toml
+rsync -a --exclude target "${SIM_SRC:-/verif/sim}/" /tmp/sim-eval/sim/ && sed -i 's#/repo/#/tmp/wt-confirm/#g' /tmp/sim-eval/sim/Cargo.toml
 cp /verif/known_findings.json /tmp/sim-eval/vdir/
 git -C $WT reset -q --hard && git -C $WT clean -fdq -e target -e target-demo
 # (patches made against an earlier commit of the same history: fall back to a 3-way merge)
